@@ -1,5 +1,6 @@
 // harness.cc -- plan interpreter, shadow heap and the common oracles O1..O5 (DESIGN.md section 5).
 #include "harness.h"
+#include <new>
 #include <algorithm>
 #include <errno.h>
 #include <stdio.h>
@@ -288,7 +289,19 @@ static void zero_check(Block* b, const uint8_t* p, size_t from, size_t to, const
 
 bool g_busy_pub(int slot) { return slot >= 0 && slot < (int)H.slots.size() && g_busy[slot] != 0; }
 
+// a new_handler as C++ programs install it: it releases memory (here: the simulated OS stops refusing) so that the retry inside mi_new* succeeds;
+// after a few calls within one operation it uninstalls itself (an unsatisfiable request must not loop)
+// (mimalloc's C build finds the handler through the symbol of std::get_new_handler(), for which it carries a weak fallback that returns
+// NULL; the harness provides the strong definition, as a statically linked C++ runtime does)
+static int g_nh_calls = 0;
+static void (*g_new_handler)() = nullptr;
+extern "C" void (*sim_std_get_new_handler(void))(void) __asm__("_ZSt15get_new_handlerv");
+extern "C" void (*sim_std_get_new_handler(void))(void) { return g_new_handler; }
+static void healing_new_handler() { os_heal(); if (++g_nh_calls > 3) g_new_handler = nullptr; }
+struct NewHandlerScope { bool on; NewHandlerScope(const Op& op) : on((op.flags & OPF_NEW_HANDLER) != 0) { if (on) { g_nh_calls = 0; g_new_handler = &healing_new_handler; } } ~NewHandlerScope() { if (on) g_new_handler = nullptr; } };
+
 static void do_alloc(const Op& op) {
+  NewHandlerScope nhs(op);
   int s = op.slot;
   if ((op.flags & OPF_WAIT) && s >= 0 && s < (int)H.slots.size()) while (H.slots[s] != nullptr || g_busy[s]) { if (!sched_wait(0x51070000ull + (uint64_t)s)) break; }
   if (s < 0 || s >= (int)H.slots.size() || H.slots[s] != nullptr || g_busy[s]) { H.ops_noop++; return; }
@@ -363,6 +376,7 @@ static void do_free(const Op& op) {
   while (al > 1 && ((uintptr_t)p % al) != 0) al >>= 1;
   if (op.flags & OPF_WATCH) H.watch.push_back(Harness::Watch{(uintptr_t)p, b->usable, g_os.log.size(), clock_now_ns() / 1000000ull, false, H.activity_rounds});
   if (op.flags & OPF_SENTINEL) { H.sentinel_bases.push_back((uintptr_t)p & ~(((uintptr_t)32 << 20) - 1)); H.sentinel_alloc_addr.push_back(0); }
+  if ((op.flags & OPF_ZOMBIE) && b->prog != T->prog && b->heap >= 0 && b->align == 0 && b->usable >= 8 && b->usable + 8 <= 8192) H.zombies.push_back(Harness::Zombie{b->p, b->usable, b->heap, b->prog, false});
   switch (op.code) {
     case OP_free: mi_free(p); break;
     case OP_free_size: mi_free_size(p, b->req); break;
@@ -378,6 +392,7 @@ static void do_free(const Op& op) {
 // realloc family
 // ---------------------------------------------------------------------------------
 static void do_realloc(const Op& op) {
+  NewHandlerScope nhs(op);
   int s = op.slot;
   if (s < 0 || s >= (int)H.slots.size() || g_busy[s]) { H.ops_noop++; return; }
   Block* old = H.slots[s];
@@ -589,7 +604,7 @@ static void do_arena_op(const Op& op) {
       bool committed = (op.b & 1) != 0, exclusive = (op.b & 2) != 0, is_zero = (op.b & 4) != 0;
       size_t size = (size_t)op.a;
       uint8_t* reg = (uint8_t*)os_harness_map(size, 32u << 20, (size_t)op.c, committed);
-      if (committed && !is_zero) { for (size_t off = 0; off < size; off += PG) memset(reg + off, 0xA5, 64); }   // dirty content (head of every OS page)
+      if (committed && !is_zero) { for (size_t off = 0; off < size; off += (size > (512u << 20) ? (16u << 20) : PG)) memset(reg + off, 0xA5, 64); }   // dirty content (head of every OS page)
       if (!mi_manage_os_memory_ex(reg, size, committed, false, is_zero, -1, exclusive, &id)) { if (!(op.flags & OPF_MAY_FAIL)) sim_violation("unexpected_null", "mi_manage_os_memory_ex(%p,%zu) failed", (void*)reg, size); return; }
       ar.exclusive = exclusive; ar.donated = true; ar.region = reg; ar.region_size = size;
     }
